@@ -51,6 +51,39 @@ def ground_section():
     ok = len(calls) == 1 and any(k.arg == "newline" and ast.unparse(k.value) == "'\\r\\n'" for k in calls[0].keywords) \
         and any(k.arg == "end_delimiter" and ast.unparse(k.value) == "False" for k in calls[0].keywords)
     ob("PDSLabelEncoder.__init__ passes newline='\\r\\n', end_delimiter=False to its base", ok)
+    ci, fn = prog.function("pvl.encoder.PDSLabelEncoder.encode")
+    rets = [ast.unparse(n.value) for n in ast.walk(fn) if isinstance(n, ast.Return)]
+    tail = [ast.unparse(st) for st in fn.body[-2:]]
+    ok = ("s = super().encode(module)" in tail[0] if tail else False) and sorted(rets) == sorted(
+        ["s.replace('\\t', ' ' * self.tab_replace)", "s"]) and "if self.tab_replace > 0" in tail[-1]
+    ob("PDSLabelEncoder.encode:tabs-are-replaced-in-the-WHOLE-finished-text-when-tab_replace>0", ok, (tail, rets))
+    for cls in ("PVLEncoder", "ODLEncoder", "PDSLabelEncoder", "ISISEncoder"):
+        dcls, f2 = prog.find_method(cls, "encode")
+        # the character-set sweep of PVLEncoder.encode runs over the final text of every encoder
+        chain = []
+        c = cls
+        while True:
+            d, f3 = prog.find_method(c, "encode")
+            if d is None:
+                break
+            chain.append(d)
+            if d == "PVLEncoder":
+                break
+            mro = prog.mro(cls)
+            c_idx = mro.index(d) + 1
+            if c_idx >= len(mro):
+                break
+            # every override must call super().encode(module)
+            if "super().encode(module)" not in ast.unparse(f3):
+                chain.append("<does-not-delegate>")
+                break
+            c = mro[c_idx]
+        ob(f"{cls}.encode:delegates-to-PVLEncoder.encode(character-set-sweep)", chain[-1] == "PVLEncoder", chain)
+    dcls, f4 = prog.find_method("PVLEncoder", "encode")
+    src = ast.unparse(f4)
+    ob("PVLEncoder.encode:raises-ValueError-unless-every-character-of-the-text-is-allowed",
+       "for i, c in enumerate(s):" in src and "if not self.grammar.char_allowed(c):" in src and "raise ValueError(" in src
+       and src.strip().endswith("return self.newline.join(lines)"))
     s.assumptions += ["textwrap.wrap places line breaks only at white space (documented); everything that depends on where "
                       "they fall is decided by the bounded conformance reader, not proved"]
     return s
